@@ -16,7 +16,7 @@ def prop(pid):
 
 
 SIZES = {  # (cases, plies) per tier for the walk family
-    "quick": {"C01": (70, 14), "C02": (90, 24), "C03": (90, 20), "C04": (90, 24), "C11": (90, 24), "C16": (110, 30)},
+    "quick": {"C01": (100, 10), "C02": (110, 24), "C03": (110, 20), "C04": (100, 24), "C11": (100, 24), "C16": (110, 30)},
     "thorough": {"C01": (4000, 40), "C02": (10000, 60), "C03": (10000, 50), "C04": (8000, 60), "C11": (10000, 60), "C16": (8000, 80)},
 }
 
